@@ -94,8 +94,20 @@ class Target:
     def Pi(self, x):
         if self.prior == "normal":
             return -0.5 * np.sum(x * x, axis=1) / 9.0
-        inside = np.all(np.abs(x) <= self.box, axis=1)
-        return np.where(inside, -self.dims * math.log(2 * self.box), -np.inf)
+        lo, hi = self.box_bounds()
+        inside = np.all((x >= lo) & (x <= hi), axis=1)
+        return np.where(inside, -float(np.sum(np.log(hi - lo))), -np.inf)
+
+    def box_bounds(self):
+        """Per-coordinate bounds of the box prior: a DIFFERENT interval for every coordinate (coordinate i: [-box+0.5 i, box-0.25 i]),
+        so that a parameter handled with another parameter's bounds is visible."""
+        i = np.arange(self.dims, dtype=float)
+        return -self.box + 0.5 * i, self.box - 0.25 * i
+
+    def bounds_dict(self):
+        """prior_bounds for Aspire, written in REVERSE parameter order (bounds belong to parameters by name, not by position)."""
+        lo, hi = self.box_bounds()
+        return {f"x_{i}": (float(lo[i]), float(hi[i])) for i in reversed(range(self.dims))}
 
     def _tick(self):
         k = self.ncalls
@@ -330,7 +342,7 @@ def aspire_sample(kind, nsname, dims, N, seed, pre=None, pkw=None, opt=None, pri
     flow = FakeFlow(dims, sigma=flow_sigma, seed=seed % 1000)
     akw = {}
     if opt.get("bounds"):
-        akw["prior_bounds"] = {f"x_{i}": (-5.0, 5.0) for i in range(dims)}
+        akw["prior_bounds"] = tgt.bounds_dict()
     if opt.get("periodic"):
         akw["periodic_parameters"] = ["x_0"]
     a = make_aspire(tgt, flow, xp, dt, dims, **akw)
